@@ -294,6 +294,8 @@ def handle (p : Peer) : Op → Ctx × Bool × String
     else ({ p := { p with rbitmap := none, isSeed := false } }, false, "havenone")
   | .mAllowedFast i =>
     if !p.canFast then ({ p := p }, true, "allowedfast-nofast")
+    else if (p.hasInfo && decide (i ≥ p.numPieces % 4294967296)) ||
+        (!p.hasInfo && decide (i ≥ 8388608)) then ({ p := p }, true, "allowedfast-range")
     else if !p.fast.contains i then ({ p := { p with fast := p.fast ++ [i] } }, false, "allowedfast")
     else ({ p := p }, false, "allowedfast-dup")
   | .mReject i b K =>
